@@ -7,6 +7,9 @@ from vlib.framework import Family
 from vlib import coqlit as L
 from C12_util import CQ, UnitAngle, exact_exponentials, unit_point, _parts
 import C12_encl
+import vlib.framework as _FW
+_FW.CASES_PER_FILE = 150     # this property's families are evaluated one after the other: smaller case files
+                             # (in this check process only) let the 16 coqc workers share each family
 
 PID = "C12"
 PROP_FILES = ["Prop"]
@@ -266,7 +269,7 @@ def gen_tree(tier, rng):
                   [o, [[i, [[i, [A, B]], [o, [B, Cc]]]]]]]
         for t in shapes:
           yield {"tree": t, "u": cj(u), "tags": ["exh", "outer=%s" % o, "inner=%s" % i]}
-  n = 250 if tier == "quick" else 3000
+  n = 180 if tier == "quick" else 3000
   for _ in range(n):
     u = rnd_point(rng)
     t = rnd_tree(rng, 3, u)
@@ -426,7 +429,7 @@ def nontrivial_dft(c, o):
 
 # ------------------------------------------------------------------ family fir
 def gen_fir(tier, rng):
-  n = 300 if tier == "quick" else 3000
+  n = 220 if tier == "quick" else 3000
   for i in range(n):
     b = rnd_list(rng, 7, 0, p_zero=0.3, p_cplx=0.15)
     g = rng.choice([CQ(1), CQ(1), CQ(-1), CQ(2), CQ(Fraction(-1, 2)), CQ(Fraction(3, 4)), CQ(1, 1)])
@@ -496,9 +499,13 @@ def nontrivial_fir(c, o):
 
 
 IMPORTS = "From AL Require Import C12.Model C12.Spec C12.Check."
+import C12_hist as HI
 FAMILIES = collections.OrderedDict([
   ("fr", Family("fr", IMPORTS, "frcase", "corr_fr", "holds_fr", gen_fr, run_fr, lit_fr, nontrivial_fr)),
   ("tree", Family("tree", IMPORTS, "tcase", "corr_tree", "holds_tree", gen_tree, run_tree, lit_tree, nontrivial_tree)),
+  ("hist", Family("hist", IMPORTS, "hcase", "corr_hist", "holds_hist", HI.gen_hist, HI.run_hist, HI.lit_hist, HI.nontrivial_hist)),
+  ("lhist", Family("lhist", IMPORTS, "lcase", "corr_lhist", "holds_lhist", HI.gen_lhist, HI.run_lhist, HI.lit_lhist, HI.nontrivial_lhist)),
+  ("dhist", Family("dhist", IMPORTS, "dhcase", "corr_dhist", "holds_dhist", HI.gen_dhist, HI.run_dhist, HI.lit_dhist)),
   ("kind", Family("kind", IMPORTS, "kcase", "corr_kind", "holds_kind", gen_kind, run_kind, lit_kind)),
   ("dft", Family("dft", IMPORTS, "dcase", "corr_dft", "holds_dft", gen_dft, run_dft, lit_dft, nontrivial_dft)),
   ("fir", Family("fir", IMPORTS, "fcase", "corr_fir", "holds_fir", gen_fir, run_fir, lit_fir, nontrivial_fir)),
